@@ -144,10 +144,16 @@ def monitors(pools, tasks, recs, mode):
             cur = exp if exp is not None else body[0]['lw']
             prev = None
             boosted = False
+            nends = 0          # phase ends (yield / boost / suspend / yield_to) seen so far
             for r in body:
                 if r['pool'] == t['pool'] and r['lw'] != cur:
                     what = {None: 'initial', 'Y': 'after_yield', 'B': 'after_boost_yield', 'U': 'after_suspend',
                             'E': 'within_phase', 'K': 'after_yield_to'}.get(prev, 'other')
+                    if what == 'after_suspend' and nends == 1:
+                        # the suspension ended the task's FIRST phase: last_worker_thread_num is still -1 when a
+                        # retry helper (set_active_state) reads it, so the wake-up gets a round-robin hint
+                        # (known finding, reproduces in a few percent of the runs)
+                        what = 'after_first_phase_suspend'
                     if pool['elastic']:
                         sig = 'C10:static_hint:elastic_divert'
                     elif uid in yt_targets and yt_targets[uid] < r['seq']:
@@ -163,6 +169,8 @@ def monitors(pools, tasks, recs, mode):
                     break
                 if r['kind'] == 'B':
                     boosted = True
+                if r['kind'] in ('Y', 'B', 'U', 'K'):
+                    nends += 1
                 prev = r['kind']
     return hits, nplace
 
